@@ -56,7 +56,7 @@ class World:
         self.cfg = cfg
         dt = cfg["dt"]
         a = cfg["a"]
-        self.A = models.build_quantized("mlp", dt, cfg["w"], a)
+        self.A = models.build_quantized("idiv", dt, cfg["w"], a)  # contains an in-place scalar division of the activation
         self.B = models.build_quantized("mlp", dt, cfg["w"], a)
         with torch.no_grad(), Calibration(streamline=False):
             self.B(models.probe_input("mlp", dt, 1))
